@@ -425,8 +425,8 @@ class Interp:
         if isinstance(v, tuple) and v and v[0] in ('bound', 'builtin', 'extern', 'hostattr', 'partial', 'closure', 'class', 'closure-def', 'cmpkey', 'itemgetter'):
             return True
         if isinstance(v, Sym):
-            if v.kind in ('group', 'parsed', 'unescaped', 'arglist', 'line', 'fstr'):
-                return True
+            if v.kind in ('group', 'parsed', 'unescaped', 'arglist', 'line', 'fstr', 'joined'):
+                return True             # ('joined': continuation parts of which at least one carries text)
             if v.kind == 'bool':
                 raise Unrecognised(self.rule, f'symbolic condition {v} cannot be decided', None)
         raise Unrecognised(self.rule, f'truthiness of {v!r} is not decidable' + (f' at {norm(node)[:60]}' if node is not None else ''), None)
@@ -1287,6 +1287,8 @@ class Interp:
                     lids = tuple(x.line.lid if isinstance(x, APart) else (x.lid if isinstance(x, ALine) else None) for x in items)
                     if isinstance(last, ALine):
                         return ALine(last.lid, last.regex, last.groups, last.also, None, lids)
+                    if all(isinstance(x, APart) and x.line.cont == 'blank' for x in items):
+                        return base.join([''] * len(items))       # parts that consist of the continuation backslash only
                     return Sym('joined', lids)
                 if len(items) == 1:
                     return items[0]
